@@ -45,7 +45,7 @@ var Prop = &engine.Prop{
 		"panic(nil) and runtime.Goexit inside a step are not generated (panic(nil) depends on the main module's GODEBUG default); nil step functions, a db that already carries an error and nested transactions are misuse and not generated",
 		"begin/commit failure: the statement only promises a non-nil result; whether the result wraps the driver's error is counted (begin_error_identity, commit_error_identity), not judged",
 	},
-	ShardsQuick: 4, ShardsThorough: 8,
+	ShardsQuick: 4, ShardsThorough: 16,
 	Setup: func(c *engine.Ctx) {
 		// Transact logs every recovered panic with a stack trace through ulog; keep the child logs small.
 		ulog.SetDefaultLogger(&ulog.Logger{Logger: zap.NewNop()})
@@ -63,8 +63,8 @@ var Prop = &engine.Prop{
 		{Name: "combine3", Quick: 1, Thorough: 1, Fn: func(k *engine.Case) { enumCase(k, 3, true) }},
 		{Name: "combine4", Quick: 1, Thorough: 1, Fn: func(k *engine.Case) { enumCase(k, 4, true) }},
 		{Name: "combine5", Quick: 0, Thorough: 1, Fn: func(k *engine.Case) { enumCase(k, 5, true) }},
-		{Name: "mixed", Quick: 400, Thorough: 20000, Fn: mixedCase},
-		{Name: "sequence", Quick: 200, Thorough: 10000, Fn: sequenceCase},
+		{Name: "mixed", Quick: 400, Thorough: 200000, Fn: mixedCase},
+		{Name: "sequence", Quick: 200, Thorough: 100000, Fn: sequenceCase},
 	},
 	// All floors are far below what the (deterministic) enumeration produces.
 	Floors: map[string]int64{
